@@ -19,7 +19,7 @@ RULE = (
     "row lengths, order) abstractions, transitions = rows transmitted, traces = programs run on the real reader. "
     "non-trivial = at least one row carries text"
 )
-ASSUMPTIONS = ["rows consist of letters only (so the transmitted row length is the line length)", "row lengths are drawn from {0,1,31,32,33,40}"]
+ASSUMPTIONS = ["rows consist of letters, every second row with one or two leading blanks (blanks occupy columns; no trailing blanks, which a decoder would not show)", "row lengths are drawn from {0,1,31,32,33,40} (more in the thorough tier)"]
 TRUSTED = ["mc.ref.cea608 encoder"]
 MANIFEST = {
     "technique": "exhaustive enumeration of row-length assignments x transmission orders x caption modes; oracle = row lengths of the transmitted program (reference list model)",
@@ -135,6 +135,9 @@ def judge(doc, row_texts, klass):
 
 
 def mk(letter, n):
+    """row text of n characters; rows of the second letter family start with blanks (which count as columns)"""
+    if n >= 3 and letter in "BDFHJL":
+        return "  " + letter * (n - 2) if letter in "DHL" else " " + letter * (n - 1)
     return letter * n
 
 
